@@ -49,6 +49,7 @@ struct Model {
 	int xcol = 0;			// the column j/k aim for
 	unsigned fch = 0; int fcmd = 0;	// last f/F/t/T
 	int top = 0, rows = 23;		// window (input from the probe for H M L)
+	bool opmode = false;		// the motion is the target of an operator: w may end after the last character
 
 	int n() const { return (int) b.size(); }
 	int len(int r) const { return r >= 0 && r < n() ? (int) b[(size_t) r].size() : 0; }
@@ -62,7 +63,7 @@ struct Model {
 		return o;
 	}
 	int first_nonblank(int r) const { int i = 0; while (i < len(r) && isblank_(b[(size_t) r][(size_t) i])) i++; return i < len(r) ? i : lastoff(r); }
-	void set(int r, int o, bool keepcol = false) { c.row = r; c.off = o > lastoff(r) ? lastoff(r) : o < 0 ? 0 : o; if (!keepcol) xcol = col_of(c.row, c.off); }
+	void set(int r, int o, bool keepcol = false) { int lim = opmode ? len(r) : lastoff(r); c.row = r; c.off = o > lim ? lim : o < 0 ? 0 : o; if (!keepcol) xcol = col_of(c.row, c.off); }
 
 	// ---- the flat character stream used by word motions: every line is followed by a newline
 	unsigned at(int r, int o) const { return o < len(r) ? b[(size_t) r][(size_t) o] : '\n'; }
@@ -123,6 +124,7 @@ struct Model {
 					moved = next(cr, co);
 				}
 				if (!moved) {	// the end of the buffer: the last character, or failure when already there
+					if (opmode) { r = n() - 1; o = len(r); break; }	// as an operator's target: the end of the last line
 					if (r == n() - 1 && o >= lastoff(r)) { if (i == 0) return false; break; }
 					r = n() - 1; o = lastoff(r);
 					break;
